@@ -2,6 +2,7 @@
 import math
 import os
 import random
+import re
 
 import numpy as np
 
@@ -63,6 +64,10 @@ def plan(tier, seed):
     for b, kk in (('fortran', 8), ('default', 2), ('torch', 2), ('jax', 2)):
         cases += [{'family': 'rational_numbers', 'cseed': rnd.randrange(1 << 30), 'backend': b, 'mode': 'vf', 'prec': 'float64'}
                   for _ in range(kk if tier == 'quick' else kk * 10)]
+    # long right-hand sides (products of long identifiers, nested calls): line wrapping of the Fortran printer
+    for b, kk in (('fortran', 16), ('default', 2), ('jax', 1), ('torch', 1)):
+        cases += [{'family': 'long_lines', 'cseed': rnd.randrange(1 << 30), 'backend': b, 'mode': 'vf', 'prec': 'float64'}
+                  for _ in range(kk if tier == 'quick' else kk * 12)]
     # three or four Fortran builds one after the other in one process, under one file name
     cases += [{'family': 'fortran_sequence', 'cseed': rnd.randrange(1 << 30), 'backend': 'fortran', 'mode': 'vf', 'prec': 'float64',
                'n_others': 2 + (i % 2)} for i in range(6 if tier == 'quick' else 60)]
@@ -186,9 +191,76 @@ def run_rational_case(case, ctx):
     return res
 
 
+def run_long_line_case(case, ctx):
+    """Hand-written equations whose right-hand sides are long products of long identifiers and nested calls (each term longer than
+    one source line of a fixed-width target language): the compiled vector field on the requested backend against direct numpy
+    arithmetic.  Names of several lengths and coefficients of several widths move the places where a code printer has to wrap."""
+    from pyrates import OperatorTemplate, NodeTemplate, CircuitTemplate
+    import math
+    rnd = random.Random(case['cseed'])
+    b = case['backend']
+    mech = {b + '_cases': 1}
+    stems = ['gain', 'rate_const', 'coupling_strength', 'adaptation', 'synaptic_efficacy_exc', 'tau_membrane', 'scale', 'zbig']
+    names_ = []
+    for i in range(3):
+        nm = rnd.choice(stems) + rnd.choice(['', '_a', '_pop', '_long_suffix', str(rnd.randint(0, 99))]) + f'_{i}'
+        names_.append(nm)
+    vals_ = {nm: round(rnd.uniform(0.3, 1.7), 4) for nm in names_}
+    cf = [rnd.choice([84300.0, 2.5, 150300.0, 0.07, 1234.5678, 3.0]) for _ in range(3)]
+    sm = [rnd.choice([1e-05, 2.173e-06, 0.001, 1.0]) for _ in range(3)]
+    n1, n2, n3 = names_
+    pad = ''.join(f" + {round(rnd.uniform(0.1, 0.9), 3)}*{rnd.choice(names_)}*z" for _ in range(rnd.randint(0, 3)))
+    eqs = [f"x' = -x*{n1}{pad} + {cf[0]}*{sm[0]}*{n1}*sin({cf[1]}*{sm[1]}*x*{n2}*cos({cf[2]}*{sm[2]}*z*{n3}))",
+           f"z' = -z*{n2} + {n3}*tanh({n1}*x*{n2} + {cf[0]}*{sm[0]}*z*{n3}*{n1})*{n2}"]
+    x0, z0 = round(rnd.uniform(-1, 1), 3), round(rnd.uniform(-1, 1), 3)
+    res = {'features': [b, 'long_lines'], 'risk': [], 'sig': stable_hash([eqs, b, x0, z0, vals_]), 'nontrivial': True}
+
+    def rhs(x, z):
+        v = vals_
+        padv = 0.0
+        for m_ in re.finditer(r" \+ ([0-9.]+)\*(\w+)\*z", pad):
+            padv += float(m_.group(1)) * v[m_.group(2)] * z
+        dx = -x * v[n1] + padv + cf[0] * sm[0] * v[n1] * math.sin(cf[1] * sm[1] * x * v[n2] * math.cos(cf[2] * sm[2] * z * v[n3]))
+        dz = -z * v[n2] + v[n3] * math.tanh(v[n1] * x * v[n2] + cf[0] * sm[0] * z * v[n3] * v[n1]) * v[n2]
+        return {'x': dx, 'z': dz}
+    try:
+        # two nodes of one node type (scalar build): the second node's variables carry suffixes (name_v1), which lengthens its lines
+        op = OperatorTemplate(name='long_op', equations=eqs, variables=dict({'x': f'output({x0})', 'z': f'variable({z0})'}, **vals_))
+        node = NodeTemplate(name='long_node', operators=[op])
+        c = CircuitTemplate(name='lng', nodes={'n': node, 'm': node})
+        try:
+            f, args, names, smap = c.get_run_func('vf', step_size=1e-3, backend=b, vectorize=False, verbose=False, clear=True,
+                                                  float_precision='float64')
+        except Exception as e:
+            import traceback
+            raise observe.Mismatch(f"loud: get_run_func(backend={b}) raised {type(e).__name__}: {str(e)[:300]} :: {traceback.format_exc()[-300:]}")
+        obs = {'func': f, 'args': list(args), 'names': list(names), 'smap': dict(smap), 'backend': b}
+        for _ in range(3):
+            y = np.zeros(4)
+            pt = {}
+            for nd in ('n', 'm'):
+                pt[nd] = (rnd.uniform(-1.5, 1.5), rnd.uniform(-1.5, 1.5))
+                y[int(smap[f'{nd}/long_op/x'])], y[int(smap[f'{nd}/long_op/z'])] = pt[nd]
+            got = observe.call_vf(obs, obs['args'], y.copy())
+            for nd in ('n', 'm'):
+                exp = rhs(*pt[nd])
+                for v in ('x', 'z'):
+                    g = float(got[int(smap[f'{nd}/long_op/{v}'])])
+                    if not abs(g - exp[v]) <= 1e-9 * max(1.0, abs(exp[v])):
+                        raise observe.Mismatch(f"backend {b}: derivative of {nd}/{v} for equations {eqs} at {pt[nd]!r} is {g!r}, arithmetic value {exp[v]!r}")
+                    mech['long_line_values'] = mech.get('long_line_values', 0) + 1
+        res.update(status='ok', symptom='', mech=mech, sample={'equations': eqs})
+    except observe.Mismatch as e:
+        s2 = str(e)
+        res.update(status='violation', symptom=('silent: ' if 'loud' not in s2 else '') + s2, mech=mech, spec={'eqs': eqs, 'vals': vals_})
+    return res
+
+
 def run_case(case, ctx):
     if case.get('family') == 'rational_numbers':
         return run_rational_case(case, ctx)
+    if case.get('family') == 'long_lines':
+        return run_long_line_case(case, ctx)
     if case.get('family') == 'fortran_sequence':
         # several Fortran builds in ONE process (same file name): each build must be the model it was asked for, i.e. agree with the
         # reference like the other backends do (machinery shared with C13)
